@@ -22,7 +22,7 @@ PROPS = {
     'C14': dict(families=['runpretty'], bounded='pvf.bounded.c14', level='other'),
     'C15': dict(families=['registry'], bounded='pvf.bounded.c15', level='proof'),
     'C16': dict(families=['render'], bounded='pvf.bounded.c16', level='proof'),
-    'C17': dict(families=[], bounded='pvf.bounded.c17', level='other'),
+    'C17': dict(families=['printers'], bounded='pvf.bounded.c17', level='other'),
     'C18': dict(families=['config', 'context'], bounded='pvf.bounded.c18', level='proof'),
     'C19': dict(families=[], bounded='pvf.bounded.c19', level='other'),
 }
